@@ -6,7 +6,7 @@
    beacon node.  The resolution of a validator's settings (C10) is an input of each round
    ([v_res], None = cannot be resolved), as are the outcomes of the signing requests, relays and
    nodes; the validators of a round come in an arbitrary order (Go map iteration). *)
-From Verif Require Import Lib.Base Model.C11_Registrations Proofs.C11.
+From Verif Require Import Lib.Base Model.C11_Registrations Model.C11_Delivery Proofs.C11 Proofs.C11_Delivery.
 
 (* ------------------------------------------------------------------------------------------- *)
 (* 1. Content and signer.  In every history, every registration that reaches relay [a] in a round
@@ -260,6 +260,53 @@ Proof. exact forward_history. Qed.
 Print Assumptions C11_forward_uncontrolled_only.
 
 (* ------------------------------------------------------------------------------------------- *)
+(* 8. Peers that take time.  Real relay and beacon node clients need a round trip and abandon a
+   request whose context is cancelled before it is answered (Model/C11_Delivery.v: every peer of an
+   operation has a latency, the operation is given a context by its caller, [run_timed] says what
+   ARRIVES).  As long as the caller's own context lives, everything that sections 1-7 say is sent
+   does arrive: for every history, whatever each relay and node needs as time and whichever of them
+   fails first, what arrives at every relay and every beacon node is exactly what [run] sends -- no
+   peer's failure ever cancels the request to another one. *)
+Theorem C11_everything_sent_arrives_while_the_callers_context_lives :
+  forall ops st tms,
+    Forall (fun tm => t_ctx tm = None) tms ->
+    run_timed st ops tms = run st ops.
+Proof. exact run_timed_alive. Qed.
+Print Assumptions C11_everything_sent_arrives_while_the_callers_context_lives.
+
+(* ... and whatever happens to the caller's context (cancelled at any moment, or never): which
+   preparer nodes get the preparations depends on that context and on how long the nodes take, never
+   on what any node ANSWERS (accepting, failing, not active). *)
+Theorem C11_preparation_node_answers_cancel_nothing :
+  forall tm p ns', length ns' = length (p_nodes p) ->
+    deliver tm (OPrepare (set_pnodes p ns')) (step_prepare (set_pnodes p ns'))
+    = deliver tm (OPrepare p) (step_prepare p).
+Proof. exact timed_prep_node_failures_isolated. Qed.
+Print Assumptions C11_preparation_node_answers_cancel_nothing.
+
+(* The same for the secondary beacon nodes of a round: their answers change nothing of what arrives
+   anywhere ... *)
+Theorem C11_secondary_node_answers_cancel_nothing :
+  forall tm st r ns', length ns' = length (r_nodes r) ->
+    step_timed st (ORound (set_nodes r ns')) tm = step_timed st (ORound r) tm.
+Proof. exact timed_node_failures_isolated. Qed.
+Print Assumptions C11_secondary_node_answers_cancel_nothing.
+
+(* ... and for relays: however the other relays behave, what ARRIVES at a relay whose own behaviour
+   is unchanged is the same, under every timing and every caller's context; signing requests, error
+   status and state are the same; and with a living context the beacon nodes get the same. *)
+Theorem C11_relay_answers_cancel_nothing :
+  forall tm st r ks',
+    fst (step_timed st (ORound (set_relays r ks')) tm) = fst (step_timed st (ORound r) tm)
+    /\ exists err reqs relays relays' nodes nodes',
+         snd (step_timed st (ORound r) tm) = OutRound err reqs relays nodes
+         /\ snd (step_timed st (ORound (set_relays r ks')) tm) = OutRound err reqs relays' nodes'
+         /\ (forall a, kind_of ks' a = kind_of (r_relays r) a -> entry_of relays' a = entry_of relays a)
+         /\ (t_ctx tm = None -> nodes' = nodes).
+Proof. exact timed_relay_failures_isolated. Qed.
+Print Assumptions C11_relay_answers_cancel_nothing.
+
+(* ------------------------------------------------------------------------------------------- *)
 (* Non-vacuity: a history A -> B -> A of one validator (account 100, key 200) with two relays,
    the second with its own fee recipient, and a second validator whose settings cannot be
    resolved in the second round. *)
@@ -327,3 +374,16 @@ Proof.
   cbn in Hres, Hres'. injection Hres as <-. injection Hres' as <-. cbn in Hrc, Hrc'.
   destruct Hrc as [<-|[<-|[]]]; destruct Hrc' as [<-|[<-|[]]]; split; reflexivity.
 Qed.
+
+(* Non-vacuity of section 8: a preparation for three nodes, the first failing after 10 ms, the
+   others healthy after 250 and 120 ms.  With a living context all three get the list; the layer is
+   not trivial: a caller cancelling after 300 ms would leave the third node (in flight from 260 ms
+   to 380 ms) without it -- and the first node's answer plays no part in either. *)
+Definition ex_prep (k : pkind) : prepare_in :=
+  {| p_cfg := true; p_fallback := 8; p_acct_err := false; p_vals := [ex_val 1 1 []]; p_nodes := [k; POk; POk] |}.
+Example C11_delivery_example :
+  (forall k, deliver {| t_ctx := None; t_relays := []; t_nodes := [10; 250; 120] |} (OPrepare (ex_prep k)) (step_prepare (ex_prep k))
+             = OutPrepare false [Some [(3, 1)]; Some [(3, 1)]; Some [(3, 1)]])
+  /\ (forall k, deliver {| t_ctx := Some 300; t_relays := []; t_nodes := [10; 250; 120] |} (OPrepare (ex_prep k)) (step_prepare (ex_prep k))
+                = OutPrepare false [Some [(3, 1)]; Some [(3, 1)]; None]).
+Proof. split; intros []; vm_compute; reflexivity. Qed.
